@@ -129,6 +129,70 @@ theorem calibrate_identity (d : V) : calibrate identityFit.gradient identityFit.
 theorem calibrate_nan (g c : Rat) : calibrate g c none = none := by
   unfold calibrate; split <;> rfl
 
+/-- the only data a calibration leaves where they are are the fixed points of its line -/
+theorem calibrate_fixed_point_iff (g c q : Rat) (hg : g ≠ 0) :
+    calibrate g c (some q) = some q ↔ g * q + c = q := by
+  unfold calibrate
+  split
+  · next h => obtain ⟨hc, h1⟩ := h; subst hc; subst h1; simp
+  · simp only [Option.bind_some, Option.some.injEq]
+    rw [div_eq_iff hg]
+    constructor <;> intro h <;> linarith
+
+/-- "returns data unchanged" characterises the identity: a calibration (with a usable gradient) returns every
+array unchanged exactly when gradient = 1 and intercept = 0 - however close to the identity another line is, it
+moves data (it fixes at most the one value `c / (1 - g)`).  Together with `calibrate_inverts`: the shortcut in
+`calibrate` may be taken for the exact identity only. -/
+theorem calibrate_unchanged_iff_identity (g c : Rat) (hg : g ≠ 0) :
+    (∀ d : V, calibrate g c d = d) ↔ (g = 1 ∧ c = 0) := by
+  constructor
+  · intro h
+    have h0 := (calibrate_fixed_point_iff g c 0 hg).1 (h (some 0))
+    have h1 := (calibrate_fixed_point_iff g c 1 hg).1 (h (some 1))
+    constructor <;> linarith
+  · rintro ⟨rfl, rfl⟩ d
+    simp [calibrate]
+
+/-! ### sessions: several operations on one object -/
+
+/-- a `calibrate` call at the end of any session uses the line the object holds at that moment and nothing else
+of its history -/
+theorem session_calibrate_current_line (o : Fit) (pre : List Step) (d : List V) :
+    run o (pre ++ [.calibrate d]) =
+      run o pre ++ [d.map (calibrate (finalState o pre).gradient (finalState o pre).intercept)] := by
+  rw [run_append]; rfl
+
+/-- `update_linreg` overwrites whatever the object held: after a refit the object is the fit of the current
+points and weighting -/
+theorem session_refit_forgets (o : Fit) (pre : List Step) (wt : Weighting) (rows : List Row) :
+    finalState o (pre ++ [.refit wt rows]) = updateLinreg wt rows := by
+  rw [finalState_append]; rfl
+
+/-- whatever line the object held before (fitted, assigned, constructed): once it is refitted on fewer than two
+usable points, `calibrate` returns the data unchanged -/
+theorem session_few_points_unchanged (o : Fit) (pre : List Step) (wt : Weighting) (rows : List Row) (d : List V)
+    (h : (usableRows rows).length < 2) :
+    run o (pre ++ [.refit wt rows, .calibrate d]) = run o pre ++ [d] := by
+  rw [run_append]
+  simp only [run, step, few_points_identity wt rows h, identityFit]
+  congr 1
+  have hid : calibrate 1 0 = id := funext (fun x => by simp [calibrate])
+  rw [hid, List.map_id]
+
+/-- whatever the object held before: once a line with a usable gradient is assigned, responses on that line are
+mapped back to their concentrations (NaN stays NaN) -/
+theorem session_inverts (o : Fit) (pre : List Step) (g c : Rat) (xs : List V) (hg : g ≠ 0) :
+    run o (pre ++ [.assign g c, .calibrate (xs.map (fun x => x.map (fun q => g * q + c)))]) = run o pre ++ [xs] := by
+  rw [run_append]
+  simp only [run, step, List.map_map]
+  congr 1
+  have : ∀ x : V, (calibrate g c ∘ fun x : V => x.map (fun q => g * q + c)) x = x := by
+    intro x
+    cases x with
+    | none => exact calibrate_nan g c
+    | some q => exact calibrate_inverts g c q hg
+  simp [List.map_congr_left (fun x _ => this x)]
+
 /-- Safe mode never divides by zero: when some entry is finite and non-zero, every finite entry
 (zero included) gets a finite weight, a zero gets the weight of the smallest non-zero level, and
 on non-negative entries all these weights are positive. -/
@@ -400,5 +464,17 @@ example : exPts4.length = 4 ∧ D exPts4 ≠ 0 ∧ Sw exPts4 ≠ 0 ∧ err2 exPt
 example : (usableRows [⟨some 1, none, none⟩, ⟨some 2, some 3, none⟩]).length < 2 := by decide
 example : (⟨some (1/2), none, some 2⟩ : Row).x = none ∨ (⟨some (1/2), none, some 2⟩ : Row).y = none := Or.inr rfl
 example : calibrate 2 3 (some (2 * 5 + 3)) = some 5 := by decide +kernel
+
+-- calibrate_fixed_point_iff / calibrate_unchanged_iff_identity: a line next to the identity moves data
+example : (1000001 / 1000000 : Rat) ≠ 0 ∧
+    calibrate (1000001 / 1000000) (1 / 1000000000) (some (1 / 1000000000)) = some 0 := by decide +kernel
+example : calibrate 2 3 (some (-3)) = some (-3) ∧ (2 : Rat) * (-3) + 3 = -3 := by decide +kernel
+-- sessions: fit, then too few usable points, then an assigned line
+def exSession : List Step :=
+  [.refit (.builtin ⟨false, .inv⟩) exRows, .calibrate [some 2, none],
+   .refit (.builtin ⟨false, .inv⟩) [⟨some 1, none, none⟩, ⟨some 2, some 3, none⟩], .calibrate [some 2, none],
+   .assign 2 3, .calibrate [some 13, none]]
+example : run identityFit exSession = [[some (4/5), none], [some 2, none], [some 5, none]] := by decide +kernel
+example : (finalState identityFit (exSession.take 1)).gradient = 10/7 ∧ (2 : Rat) ≠ 0 := by decide +kernel
 
 end Pew.Calib
